@@ -13,7 +13,7 @@ from analysis.mir import leaves, calls_in, show, walk, short, term_is
 from rules import storage_shared as ss
 
 EXPLANATION = __doc__
-FLOOR = 12
+FLOOR = 14
 TN = 'akd::tree_node::'
 
 
@@ -22,6 +22,8 @@ def run(ctx):
     readers_choose_by_epoch(ctx, 'C11')
     selection_predicate(ctx, 'C11')
     previous_kept(ctx, 'C11')
+    is_new_flags(ctx, 'C11')
+    writes_inside_commit(ctx, 'C11')
     ss.transaction_lifecycle(ctx, 'C11')
     bounded_reads(ctx, 'C11')
 
@@ -260,3 +262,63 @@ def _muts_all(e):
         if x[0] == 'mutby':
             out += list(x[1])
     return out
+
+
+def is_new_flags(ctx, pfx):
+    """`write_to_storage(storage, is_new)` skips the lookup of the stored node when is_new is true and writes
+    `previous_node: None`.  For an existing node that destroys the previous-epoch version a lagging reader needs.
+    Every call site on the insertion path must therefore pass either the literal `false` or the very flag that the
+    recursive insertion returned *together with that node* (`(node, is_new, _) = recursive_batch_insert_nodes(..)`).
+    (Seeded change C11-r1-a passed `is_new || child_is_new`.)"""
+    from rules import dir_shared as ds
+    prog = ctx.prog
+    n = 0
+    bad = []
+    for fn in ('recursive_batch_insert_nodes', 'batch_insert_nodes'):
+        b = prog.fn_and_inner(ds.AZ + fn)
+        for ev, c in find_events(b, 'TreeNode::write_to_storage'):
+            if len(c[3]) < 3:
+                continue
+            n += 1
+            recv, flag = strip_mut(arg(c, 0)), strip_mut(arg(c, 2))
+            if flag[0] == 'const' and flag[1] in (0, False):
+                continue
+            rb, rf = split_fields(recv)
+            fb, ff = split_fields(flag)
+            # node and flag are components .0 and .1 of one and the same tuple value (the insertion's result)
+            ok = rb == fb and rf.split('.')[-1:] == ['0'] and ff.split('.')[-1:] == ['1'] and rf.split('.')[:-1] == ff.split('.')[:-1]
+            if not ok:
+                bad.append('%s: write_to_storage(%s, is_new = %s)' % (b.loc(ev['pos']), show(recv)[:50], show(flag)[:90]))
+    ctx.ob(pfx + '.BIND.is_new_flag', 'RF-BIND', not bad and n >= 5, ds.AZ + 'recursive_batch_insert_nodes', bad[0].split(':')[0] + ':' + bad[0].split(':')[1] if bad else None,
+           'every node is written with `false` or with the is_new flag returned with that node (%d call sites)' % n if not bad and n >= 5 else
+           'a node is written with an is_new flag that is not its own (previous version would be dropped): %s' % (bad or ['only %d call sites found' % n]),
+           key='RF-BIND|is_new_flag')
+
+
+def writes_inside_commit(ctx, pfx):
+    """every record of a publish reaches storage through the one committed transaction: in `publish`, no storage
+    write (set / batch_set / tombstone) is reachable after commit_transaction has been called, and every write is
+    dominated by the successful begin_transaction.  A record written after the commit lands after the epoch record
+    (seeded change C11-r1-b wrote the value states in a second batch)."""
+    from rules import dir_shared as ds
+    prog = ctx.prog
+    b = prog.fn_and_inner(ds.D + 'publish')
+    commit = [ev for ev, c in find_events(b, 'StorageManager::commit_transaction')]
+    writes = [(ev, c) for cal in ('StorageManager::set', 'StorageManager::batch_set', 'StorageManager::tombstone_value_states',
+                                  'Azks::batch_insert_nodes', 'TreeNode::write_to_storage') for ev, c in find_events(b, cal)]
+    bg = [g for g in b.guards() if g['fail'] and any(fc[0] == 'pred' and fc[1].endswith('begin_transaction') and fc[3] is False
+                                                      for fc in failconds(b, g))]
+    bad = []
+    if commit:
+        after = b._reach_from(commit[0]['pos'][0])
+        for ev, c in writes:
+            if ev['pos'][0] in after and ev['pos'][0] != commit[0]['pos'][0]:
+                bad.append('%s after commit_transaction (%s)' % (short(c[2] or c[1]), b.loc(ev['pos'])))
+    for ev, c in writes:
+        if not bg or not edge_dominates(b, (bg[0]['block'], bg[0]['pass'][0][1]), ev['pos'][0]):
+            bad.append('%s outside the transaction (%s)' % (short(c[2] or c[1]), b.loc(ev['pos'])))
+    ok = bool(commit) and len(writes) >= 2 and not bad
+    ctx.ob(pfx + '.ORDER.writes_inside_commit', 'RF-ORDER', ok, b.path, '%s:%s' % (b.file, commit[0]['line'] if commit else b.line),
+           'all %d storage writes of publish lie between begin_transaction and commit_transaction' % len(writes) if ok else
+           'publish writes storage outside its committed transaction: %s' % (bad or 'no commit / writes found'),
+           key='RF-ORDER|writes_inside_commit')
